@@ -38,7 +38,11 @@ use std::{
 use scion_stack::path::{
     PathStrategy,
     fetcher::traits::{PathFetchError, PathFetcher},
-    manager::{MultiPathManager, MultiPathManagerConfig, traits::{PathManager, PathWaitError}, verif_sched::VerifHandle},
+    manager::{
+        MultiPathManager, MultiPathManagerConfig,
+        traits::{PathManager, PathWaitError},
+        verif_sched::{VerifHandle, YieldCtx, YieldFuture, set_yield_controller},
+    },
 };
 use sciparse::{
     address::ip_addr::ScionIpAddr,
@@ -110,9 +114,33 @@ struct Sched {
     /// paths refetches after this delay
     refetch_ms: u64,
     ops: Vec<Op>,
+    /// free-running multi-thread schedules: every yield point of the code (verif-hooks, lock-region granularity)
+    /// re-schedules the task 0..3 times (seeded) – widens the windows between two lock regions
+    perturb: bool,
+    /// controlled schedule (`rt=ctl`): the harness is the scheduler – every task parks at every yield point and
+    /// exactly one task at a time is released.  `steps` = the releases / operations to perform (replay);
+    /// `gen` = (seed, number of steps) to choose them at random while running
+    ctl: Option<CtlSpec>,
+}
+
+#[derive(Clone, Debug, Default)]
+struct CtlSpec {
+    steps: Vec<String>,
+    genr: Option<(u64, usize)>,
 }
 
 fn sched_line(s: &Sched) -> String {
+    if let Some(c) = &s.ctl {
+        return format!(
+            "rt=ctl idle={}{} ops={}",
+            s.idle_ms,
+            if s.refetch_ms > 0 { format!(" refetch={}", s.refetch_ms) } else { String::new() },
+            match c.genr {
+                Some((seed, n)) if c.steps.is_empty() => format!("gen.{seed}.{n}"),
+                _ => c.steps.join(";"),
+            }
+        );
+    }
     let ops: Vec<String> = s
         .ops
         .iter()
@@ -137,8 +165,9 @@ fn sched_line(s: &Sched) -> String {
         })
         .collect();
     format!(
-        "rt={} idle={}{}{} ops={}",
+        "rt={}{} idle={}{}{} ops={}",
         if s.threads == 0 { "ct".to_string() } else { format!("mt{}", s.threads) },
+        if s.perturb { " pert=1" } else { "" },
         s.idle_ms,
         match s.cap {
             Some(c) => format!(" cap={c}"),
@@ -165,9 +194,22 @@ fn parse_sched(line: &str) -> Option<Sched> {
     let mut cap = None;
     let mut refetch_ms = 0u64;
     let mut ops = vec![];
+    let mut perturb = false;
+    let mut ctl: Option<CtlSpec> = None;
     for tok in line.split_whitespace() {
         let (k, v) = tok.split_once('=')?;
         match k {
+            "rt" if v == "ctl" => ctl = Some(CtlSpec::default()),
+            "pert" => perturb = v == "1",
+            "ops" if ctl.is_some() => {
+                let c = ctl.as_mut().unwrap();
+                let p: Vec<&str> = v.split('.').collect();
+                if let ["gen", seed, n] = p.as_slice() {
+                    c.genr = Some((seed.parse().ok()?, n.parse().ok()?));
+                } else {
+                    c.steps = v.split(';').filter(|x| !x.is_empty()).map(|x| x.to_string()).collect();
+                }
+            }
             "rt" => {
                 threads = if v == "ct" { 0 } else { v.strip_prefix("mt")?.parse().ok()? };
             }
@@ -205,7 +247,7 @@ fn parse_sched(line: &str) -> Option<Sched> {
             _ => return None,
         }
     }
-    Some(Sched { threads, idle_ms, cap, refetch_ms, ops })
+    Some(Sched { threads, idle_ms, cap, refetch_ms, ops, perturb, ctl })
 }
 
 // ---------------------------------------------------------------------------------------------------------
@@ -259,11 +301,14 @@ struct GateShared {
     /// path id -> (key, path)
     served: Mutex<HashMap<u32, (usize, ScionPath)>>,
     dropped: AtomicBool,
+    /// controlled schedules: a lookup parks at the controller instead of a semaphore
+    ctl: Option<Arc<Ctl>>,
 }
 
 impl GateShared {
-    fn new() -> Arc<Self> {
+    fn new(ctl: Option<Arc<Ctl>>) -> Arc<Self> {
         Arc::new(GateShared {
+            ctl,
             keys: Mutex::new((0..NKEYS).map(|_| KeyGate::default()).collect()),
             served: Mutex::new(HashMap::new()),
             dropped: AtomicBool::new(false),
@@ -304,6 +349,23 @@ impl Drop for GFetcher {
 impl PathFetcher for GFetcher {
     async fn fetch_paths(&self, src: IsdAsn, dst: IsdAsn) -> Result<Vec<ScionPath>, PathFetchError> {
         let key = (0..NKEYS).find(|k| key_pair(*k) == (src, dst)).expect("unknown pair");
+        if let Some(ctl) = self.0.ctl.clone() {
+            // controlled schedule: park until the harness completes this lookup with a response of its choice
+            self.0.keys.lock().unwrap()[key].starts += 1;
+            let (tx, rx) = tokio::sync::oneshot::channel();
+            ctl.q.lock().unwrap().push_back(Ev { caller: None, set: None, key: Some(key), site: "f:start", reason: None, park: Park::Fetch(tx) });
+            let (resp, id) = rx.await.unwrap_or((Resp::Err, 0));
+            self.0.keys.lock().unwrap()[key].ends += 1;
+            return match resp {
+                Resp::Ok | Resp::Near => {
+                    let p = mk_path(key, id, resp == Resp::Near);
+                    self.0.served.lock().unwrap().insert(id, (key, p.clone()));
+                    Ok(vec![p])
+                }
+                Resp::Empty => Ok(vec![]),
+                Resp::Err => Err(PathFetchError::InternalError("mock lookup failure".into())),
+            };
+        }
         let (ticket, wait) = {
             let mut g = self.0.keys.lock().unwrap();
             let kg = &mut g[key];
@@ -1043,9 +1105,27 @@ struct Outcome {
     /// at a failed synchronisation point: the mismatch of every candidate witness tried last
     cand_mm: Vec<String>,
     trace_tail: Vec<String>,
+    /// controlled schedules: the step tokens actually performed (before the drain)
+    ctl_steps: Vec<String>,
 }
 
 fn run_sched(s: &Sched, lean: &mut Lean) -> Outcome {
+    if s.ctl.is_some() {
+        let rt = tokio::runtime::Builder::new_current_thread().enable_all().build().unwrap();
+        let out = rt.block_on(run_ctl_async(s, lean));
+        rt.shutdown_timeout(Duration::from_millis(200));
+        set_yield_controller(None);
+        return out;
+    }
+    if s.perturb && s.threads > 0 {
+        install_perturb(s.ops.len() as u64 * 7919 + s.threads as u64);
+    }
+    let out = run_sched_free(s, lean);
+    set_yield_controller(None);
+    out
+}
+
+fn run_sched_free(s: &Sched, lean: &mut Lean) -> Outcome {
     let rt = if s.threads == 0 {
         tokio::runtime::Builder::new_current_thread().enable_all().build().unwrap()
     } else {
@@ -1058,7 +1138,7 @@ fn run_sched(s: &Sched, lean: &mut Lean) -> Outcome {
 
 async fn run_sched_async(s: &Sched, lean: &mut Lean) -> Outcome {
     let mut out = Outcome::default();
-    let gate = GateShared::new();
+    let gate = GateShared::new(None);
     let mut cfg = MultiPathManagerConfig::default();
     if s.idle_ms > 0 {
         cfg = cfg.with_max_idle_period(Duration::from_millis(s.idle_ms));
@@ -1534,6 +1614,1019 @@ async fn sync_point(real: &mut Real, model: &mut Model<'_>, out: &mut Outcome, b
 }
 
 // ---------------------------------------------------------------------------------------------------------
+// controlled schedules: the harness is the scheduler (verif-hooks yield points at lock-region granularity)
+// ---------------------------------------------------------------------------------------------------------
+//
+// Every task of the real system parks at every yield point of the code (`verif_sched::yield_point`: between two
+// lock-protected regions / lock-free loads or stores of manager.rs and pathset.rs) and at the mock fetcher; the
+// harness releases exactly ONE parked task at a time on a current-thread runtime and waits until it has parked
+// again, finished, or blocked in tokio (a `Notified`, the worker's `select!`).  The sequence of model actions
+// is therefore *observed*, not constructed: the region executed between the site a task was released from and
+// the site it arrives at next IS one model action (table in `on_worker_arrival` / `on_caller_arrival`).  Every
+// such action must be enabled in the Lean model, and after every step the model state is compared with the
+// real one (handshake state, active slot and idle flag of every path set, manager index, worker count,
+// fetcher invocations, manager dropped, caller results).  Nothing is forgiven as "transient" here.
+
+tokio::task_local! {
+    static CALLER_ID: usize;
+}
+
+enum Park {
+    Go(tokio::sync::oneshot::Sender<()>),
+    Fetch(tokio::sync::oneshot::Sender<(Resp, u32)>),
+    Note,
+}
+
+struct Ev {
+    caller: Option<usize>,
+    set: Option<VerifHandle>,
+    key: Option<usize>,
+    site: &'static str,
+    reason: Option<&'static str>,
+    park: Park,
+}
+
+#[derive(Default)]
+struct Ctl {
+    q: Mutex<VecDeque<Ev>>,
+}
+
+fn install_ctl(ctl: Arc<Ctl>) {
+    set_yield_controller(Some(Arc::new(move |ctx: YieldCtx| -> Option<YieldFuture> {
+        let caller = CALLER_ID.try_with(|c| *c).ok();
+        let key = ctx.pair.and_then(|p| (0..NKEYS).find(|k| key_pair(*k) == p));
+        let note = matches!(ctx.site, "w:done" | "e:spawn");
+        if note {
+            ctl.q.lock().unwrap().push_back(Ev { caller, set: ctx.handle, key, site: ctx.site, reason: ctx.reason, park: Park::Note });
+            None
+        } else {
+            let (tx, rx) = tokio::sync::oneshot::channel();
+            ctl.q.lock().unwrap().push_back(Ev { caller, set: ctx.handle, key, site: ctx.site, reason: ctx.reason, park: Park::Go(tx) });
+            Some(Box::pin(async move {
+                let _ = rx.await;
+            }))
+        }
+    })));
+}
+
+/// free-running schedules: every yield point re-schedules the task 0..3 times
+fn install_perturb(seed: u64) {
+    let st = Arc::new(std::sync::atomic::AtomicU64::new(seed));
+    set_yield_controller(Some(Arc::new(move |_ctx: YieldCtx| -> Option<YieldFuture> {
+        let x = st.fetch_add(0x9E37_79B9_7F4A_7C15, Ordering::Relaxed);
+        let mut z = x;
+        z = (z ^ (z >> 30)).wrapping_mul(0xBF58_476D_1CE4_E5B9);
+        z = (z ^ (z >> 27)).wrapping_mul(0x94D0_49BB_1331_11EB);
+        let n = (z >> 33) % 4;
+        if n == 0 {
+            return None;
+        }
+        Some(Box::pin(async move {
+            for _ in 0..n {
+                tokio::task::yield_now().await;
+            }
+        }))
+    })));
+}
+
+struct CCaller {
+    kind: Kind,
+    key: usize,
+    probe: Arc<ProbeState>,
+    join: tokio::task::JoinHandle<String>,
+    result: Option<String>,
+    site: &'static str,
+    arrivals: usize,
+    parked: Option<tokio::sync::oneshot::Sender<()>>,
+    /// model program counter after its last model step
+    mpc: String,
+    /// the model has executed its finishing step
+    mdone: bool,
+}
+
+struct CWorker {
+    h: VerifHandle,
+    key: usize,
+    site: &'static str,
+    parked: Option<Park>,
+    reason: Option<&'static str>,
+    done: bool,
+    /// response chosen for its pending lookup
+    resp: Option<(Resp, u32)>,
+    /// active slot as of its last arrival
+    last_active: String,
+}
+
+fn caller_site_pc(site: &str) -> &'static str {
+    match site {
+        "c:before-peek" => "peek",
+        "c:before-ensure" => "ensure",
+        "h:before-load" => "loadActive",
+        "h:before-lock-check" => "lockCheck",
+        "h:registered" => "waiting",
+        "h:before-reload" => "reload",
+        "c:before-read-err" => "readErr",
+        _ => "?",
+    }
+}
+
+fn reason_class(r: &str) -> &'static str {
+    match r {
+        "idle" => "idle",
+        "cancelled" => "cancelled",
+        "manager dropped" => "mgrGone",
+        _ => "?",
+    }
+}
+
+struct CRun<'a> {
+    gate: Arc<GateShared>,
+    ctl: Arc<Ctl>,
+    mgr: Option<MultiPathManager<GFetcher>>,
+    callers: Vec<CCaller>,
+    workers: Vec<CWorker>,
+    model: Model<'a>,
+    fail: Option<(String, String, String)>,
+    spec: Vec<(String, String)>,
+    steps: Vec<String>,
+    next_id: u32,
+    spawns: Vec<usize>,
+    removals: Vec<usize>,
+    timers: bool,
+    sites: HashMap<String, u64>,
+    compared: u64,
+}
+
+impl<'a> CRun<'a> {
+    fn disagree(&mut self, what: String, im: String, mo: String) {
+        if self.fail.is_none() {
+            self.fail = Some((what, im, mo));
+        }
+    }
+
+    /// model action that must be enabled
+    fn mact(&mut self, req: &str) {
+        if !self.model.act(req) {
+            let r = self.model.refused.clone().unwrap_or_default();
+            self.disagree("model refused an action the implementation performed".into(), req.to_string(), r);
+        }
+    }
+
+    fn wq(&mut self, i: usize) -> String {
+        self.model.ask(&format!("q w {i}"))
+    }
+
+    fn active_of(&self, i: usize) -> String {
+        let w = &self.workers[i];
+        match w.h.sync_state().active {
+            Some(p) => classify_path(&self.gate, w.key, &p).trim_start_matches("path:").to_string(),
+            None => "-".into(),
+        }
+    }
+
+    /// the lock-free store (if any) the worker made into the active slot since its last arrival
+    fn store_since(&mut self, i: usize) -> String {
+        let now = self.active_of(i);
+        let before = std::mem::replace(&mut self.workers[i].last_active, now.clone());
+        if now == before {
+            "keep".into()
+        } else if now == "-" {
+            "clear".into()
+        } else {
+            format!("set:{now}")
+        }
+    }
+
+    fn expect_wpc(&mut self, i: usize, want: &str) {
+        if !self.model.enabled() {
+            return;
+        }
+        let q = self.wq(i);
+        let pc = field(&q, "pc").to_string();
+        let ok = if want.ends_with(':') { pc.starts_with(want) } else { pc == want };
+        if !ok {
+            let site = self.workers[i].site;
+            self.disagree(format!("program point of worker {i}"), format!("at yield point {site} (= {want})"), format!("pc={pc}"));
+        }
+    }
+
+    /// worker `i` (released from `prev`) has arrived at `site`: the region in between is one model action
+    fn on_worker_arrival(&mut self, i: usize, site: &'static str, reason: Option<&'static str>, park: Park) {
+        let prev = self.workers[i].site;
+        *self.sites.entry(format!("{prev} -> {site}")).or_insert(0) += 1;
+        self.workers[i].site = site;
+        self.workers[i].parked = match park {
+            Park::Note => None,
+            p => Some(p),
+        };
+        if let Some(r) = reason {
+            self.workers[i].reason = Some(r);
+        }
+        let rc = reason.map(reason_class).unwrap_or("?");
+        match (prev, site) {
+            ("(spawned)", "w:start") => {
+                self.workers[i].last_active = self.active_of(i);
+                self.expect_wpc(i, "start");
+            }
+            ("w:start", "w:before-set-ongoing") => {
+                self.mact(&format!("w {i} upgradeStart"));
+                self.expect_wpc(i, "setOngoing");
+            }
+            ("w:start", "w:exit") | ("w:tick", "w:exit") | ("w:issue", "w:exit") if rc == "mgrGone" => {
+                self.mact(&format!("w {i} mgrGone"));
+                self.expect_wpc(i, "exitRemove:mgrGone");
+            }
+            ("w:before-set-ongoing", "f:start") => {
+                self.mact(&format!("w {i} setOngoing"));
+                self.expect_wpc(i, "fetching");
+            }
+            ("f:start", "w:before-set-err") => {
+                let r = match self.workers[i].resp.map(|r| r.0) {
+                    Some(Resp::Ok) | Some(Resp::Near) => "ok",
+                    Some(Resp::Empty) => "empty",
+                    _ => "err",
+                };
+                self.mact(&format!("w {i} fetchDone {r}"));
+                let a = self.store_since(i);
+                self.mact(&format!("w {i} cacheStore {a}"));
+                self.expect_wpc(i, "setErr:");
+            }
+            ("w:before-set-err", "w:before-publish") => {
+                self.mact(&format!("w {i} setErr"));
+                self.expect_wpc(i, "publish");
+            }
+            ("w:before-publish", "w:before-clear") => {
+                let a = self.store_since(i);
+                self.mact(&format!("w {i} publishActive {a}"));
+                self.expect_wpc(i, "clear");
+            }
+            ("w:before-clear", "w:after-clear") => {
+                self.mact(&format!("w {i} clearAndNotify"));
+                self.expect_wpc(i, "release");
+            }
+            ("w:after-clear", "w:loop") => {
+                self.mact(&format!("w {i} releaseMgr"));
+                self.expect_wpc(i, "loop");
+            }
+            ("w:loop", "w:tick") | ("w:loop", "w:issue") => {
+                // a timer fired / the issue channel woke the worker: it is still at its `select!`
+                self.expect_wpc(i, "loop");
+            }
+            ("w:loop", "w:cancelled") => {
+                // its cancel token has fired: either the manager value is gone (the model knows) or the collector
+                // of scc::HashIndex has dropped its removed entry (`reclaim`, enabled only if it is not registered)
+                let q = self.wq(i);
+                if self.model.enabled() && field(&q, "cancelled") != "1" {
+                    self.mact(&format!("m reclaim {i}"));
+                }
+                self.expect_wpc(i, "loop");
+            }
+            ("w:cancelled", "w:exit") if rc == "cancelled" => {
+                self.mact(&format!("w {i} cancelSeen"));
+                self.expect_wpc(i, "exitRemove:cancelled");
+            }
+            ("w:tick", _) if site == "w:loop" || site == "w:before-set-ongoing" || (site == "w:exit" && rc == "idle") => {
+                // `maintain`: idle check (exit | reset of the usage flag | nothing), then a refetch if one is due
+                let q = self.wq(i);
+                let m_used = field(&q, "used") == "1";
+                let r_used = self.workers[i].h.used_flag();
+                let mut any = false;
+                if self.model.enabled() && m_used && !r_used {
+                    self.mact(&format!("w {i} tickNothing 1"));
+                    any = true;
+                }
+                match site {
+                    "w:exit" => {
+                        self.mact(&format!("w {i} tickIdle"));
+                        self.expect_wpc(i, "exitRemove:idle");
+                    }
+                    "w:before-set-ongoing" => {
+                        self.mact(&format!("w {i} tickRefetch"));
+                        self.expect_wpc(i, "setOngoing");
+                    }
+                    _ => {
+                        if !any {
+                            self.mact(&format!("w {i} tickNothing 0"));
+                        }
+                        self.expect_wpc(i, "loop");
+                    }
+                }
+            }
+            ("w:issue", "w:loop") => {
+                let a = self.store_since(i);
+                self.mact(&format!("w {i} issueRx {a}"));
+                self.expect_wpc(i, "loop");
+            }
+            ("w:exit", "w:before-exit-notify") => {
+                self.mact(&format!("w {i} exitRemove"));
+                self.removals[self.workers[i].key] += 1;
+                self.expect_wpc(i, "exitNotify:");
+            }
+            ("w:before-exit-notify", "w:done") => {
+                self.mact(&format!("w {i} exitNotify"));
+                self.mact(&format!("w {i} storeNone"));
+                self.workers[i].done = true;
+                self.workers[i].last_active = "-".into();
+                self.expect_wpc(i, "done");
+            }
+            _ => {
+                self.disagree(
+                    format!("control flow of worker {i}"),
+                    format!("went from yield point {prev} to {site} (exit reason {:?})", reason),
+                    "no model action covers this region".into(),
+                );
+            }
+        }
+        if site == "w:exit" && self.model.enabled() {
+            let q = self.wq(i);
+            let want = format!("exitRemove:{rc}");
+            if field(&q, "pc") != want {
+                self.disagree(format!("exit reason of worker {i}"), format!("{:?}", reason), format!("pc={}", field(&q, "pc")));
+            }
+        }
+    }
+
+    /// one model step of caller `j` (its program is sequential); returns the new model pc
+    fn caller_model_step(&mut self, j: usize) {
+        if !self.model.enabled() {
+            return;
+        }
+        let r = self.model.ask(&format!("t {j} next"));
+        if r.starts_with("ok") {
+            self.model.actions += 1;
+            *self.model.counts.entry(format!("caller {}", r.trim_start_matches("ok "))).or_insert(0) += 1;
+        } else {
+            let site = self.callers[j].site;
+            self.disagree(format!("caller {j} made a step"), format!("arrived at / returned after yield point {site}"), format!("model: {r}"));
+        }
+        let q = self.model.ask(&format!("q t {j}"));
+        self.callers[j].mpc = field(&q, "pc").to_string();
+    }
+
+    fn on_caller_arrival(&mut self, j: usize, site: &'static str, set: Option<VerifHandle>, tx: tokio::sync::oneshot::Sender<()>) {
+        let prev = self.callers[j].site;
+        *self.sites.entry(format!("{prev} -> {site}")).or_insert(0) += 1;
+        self.callers[j].site = site;
+        self.callers[j].parked = Some(tx);
+        self.callers[j].arrivals += 1;
+        if self.callers[j].arrivals > 1 {
+            self.caller_model_step(j);
+        } else if self.model.enabled() {
+            let q = self.model.ask(&format!("q t {j}"));
+            self.callers[j].mpc = field(&q, "pc").to_string();
+        }
+        if !self.model.enabled() {
+            return;
+        }
+        let want = caller_site_pc(site);
+        let mpc = self.callers[j].mpc.clone();
+        if mpc.split(':').next() != Some(want) {
+            self.disagree(format!("program point of caller {j}"), format!("at yield point {site} (= {want})"), format!("pc={mpc}"));
+        }
+        // the handle it works on
+        if let Some(h) = set {
+            let q = self.model.ask(&format!("q t {j}"));
+            let mh = field(&q, "h").parse::<usize>().ok();
+            let rh = self.workers.iter().position(|w| w.h.same(&h));
+            if mh != rh {
+                self.disagree(format!("path set caller {j} works on"), format!("worker {:?}", rh), format!("worker {:?}", mh));
+            }
+        }
+    }
+
+    async fn drain_events(&mut self) -> usize {
+        let mut n = 0;
+        loop {
+            let ev = self.ctl.q.lock().unwrap().pop_front();
+            let Some(ev) = ev else { break };
+            n += 1;
+            // a caller that has returned did so before anything that is still in the queue (it was the task that
+            // ran; what follows are tasks it woke up, e.g. the worker it spawned or workers its drop cancelled)
+            if !matches!(ev.park, Park::Note) {
+                self.collect().await;
+                self.finish_callers();
+            }
+            match ev.site {
+                "e:spawn" => {
+                    let h = ev.set.expect("spawn note carries the path set");
+                    let key = ev.key.unwrap_or(0);
+                    self.spawns[key] += 1;
+                    self.workers.push(CWorker { h, key, site: "(spawned)", parked: None, reason: None, done: false, resp: None, last_active: "-".into() });
+                }
+                "f:start" => {
+                    let key = ev.key.unwrap_or(0);
+                    let i = self.workers.iter().position(|w| w.key == key && w.site == "w:before-set-ongoing" && w.parked.is_none());
+                    match i {
+                        Some(i) => self.on_worker_arrival(i, "f:start", None, ev.park),
+                        None => self.disagree("lookup started".into(), format!("fetch_paths for pair {key} by a task that is not a worker past w:before-set-ongoing"), "-".into()),
+                    }
+                }
+                s if s.starts_with("w:") => {
+                    let h = ev.set.expect("worker yield point carries the path set");
+                    match self.workers.iter().position(|w| w.h.same(&h)) {
+                        Some(i) => self.on_worker_arrival(i, s, ev.reason, ev.park),
+                        None => self.disagree("worker task".into(), format!("yield point {s} of a path set that was never spawned through manage()"), "-".into()),
+                    }
+                }
+                s => match (ev.caller, ev.park) {
+                    (Some(j), Park::Go(tx)) if j < self.callers.len() => self.on_caller_arrival(j, s, ev.set, tx),
+                    _ => self.disagree("caller task".into(), format!("yield point {s} outside a caller task of the harness"), "-".into()),
+                },
+            }
+        }
+        n
+    }
+
+    async fn collect(&mut self) -> usize {
+        let mut n = 0;
+        for j in 0..self.callers.len() {
+            if self.callers[j].result.is_none() && self.callers[j].join.is_finished() {
+                let r = match (&mut self.callers[j].join).await {
+                    Ok(s) => s,
+                    Err(e) => format!("panic:{e}"),
+                };
+                self.callers[j].result = Some(r);
+                n += 1;
+            }
+        }
+        n
+    }
+
+    /// the model side of a caller that has returned
+    fn finish_callers(&mut self) {
+        for j in 0..self.callers.len() {
+            if self.callers[j].mdone || self.callers[j].result.is_none() {
+                continue;
+            }
+            self.callers[j].mdone = true;
+            if !self.model.enabled() {
+                continue;
+            }
+            // `cached_path` is synchronous: its (up to three) regions ran in one poll
+            let max = if self.callers[j].kind == Kind::Cached { 3 } else { 1 };
+            for _ in 0..max {
+                self.caller_model_step(j);
+                if self.callers[j].mpc == "done" || self.fail.is_some() {
+                    break;
+                }
+            }
+            let q = self.model.ask(&format!("q t {j}"));
+            let want = self.callers[j].result.clone().unwrap_or_default();
+            if field(&q, "pc") != "done" || field(&q, "res") != want {
+                self.disagree(format!("result of caller {j}"), want, format!("pc={} res={}", field(&q, "pc"), field(&q, "res")));
+            }
+        }
+    }
+
+    /// let the released task run until it has parked again, finished, or blocked
+    async fn settle(&mut self) {
+        let mut quiet = 0;
+        for _ in 0..400 {
+            for _ in 0..4 {
+                tokio::task::yield_now().await;
+            }
+            let n = self.drain_events().await;
+            let f = self.collect().await;
+            let busy = self.callers.iter().any(|c| c.result.is_none() && !c.probe.settled());
+            if n == 0 && f == 0 && !busy {
+                quiet += 1;
+                if quiet >= 2 {
+                    break;
+                }
+            } else {
+                quiet = 0;
+            }
+        }
+        self.finish_callers();
+    }
+
+    /// callers that wait for a notification the model says has been sent
+    fn overdue(&mut self) -> Vec<usize> {
+        let mut v = vec![];
+        if !self.model.enabled() {
+            return v;
+        }
+        for j in 0..self.callers.len() {
+            let c = &self.callers[j];
+            if c.result.is_some() || c.parked.is_some() || c.site != "h:registered" {
+                continue;
+            }
+            let Some(g) = c.mpc.strip_prefix("waiting:").and_then(|g| g.parse::<u64>().ok()) else { continue };
+            let q = self.model.ask(&format!("q t {j}"));
+            let Ok(i) = field(&q, "h").parse::<usize>() else { continue };
+            let w = self.wq(i);
+            if field(&w, "gen").parse::<u64>().ok() != Some(g) {
+                v.push(j);
+            }
+        }
+        v
+    }
+
+    /// model state = real state (everything observable)
+    fn check_state(&mut self) {
+        if !self.model.enabled() || self.fail.is_some() {
+            return;
+        }
+        self.compared += 1;
+        let (nw, nt, alive) = self.model.globals();
+        if nw != self.workers.len() {
+            self.disagree("number of worker tasks spawned".into(), format!("{}", self.workers.len()), format!("{nw}"));
+            return;
+        }
+        if nt != self.callers.len() {
+            self.disagree("number of callers".into(), format!("{}", self.callers.len()), format!("{nt}"));
+            return;
+        }
+        for i in 0..self.workers.len() {
+            let st = handle_state(&self.gate, self.workers[i].key, &self.workers[i].h);
+            let used = self.workers[i].h.used_flag();
+            let q = self.wq(i);
+            let m = format!("init={} ongoing={} err={} active={}", field(&q, "init"), field(&q, "ongoing"), field(&q, "err"), field(&q, "active"));
+            if st != m {
+                self.disagree(format!("handshake state of worker {i}"), st, m);
+                return;
+            }
+            if (field(&q, "used") == "1") != used && !self.workers[i].done {
+                self.disagree(format!("idle-period usage flag of worker {i}"), format!("{used}"), field(&q, "used").to_string());
+                return;
+            }
+        }
+        if let Some(m) = self.mgr.as_ref() {
+            for k in 0..NKEYS {
+                let (a, b) = key_pair(k);
+                let rh = m.verif_handle(a, b).and_then(|h| self.workers.iter().position(|w| w.h.same(&h)));
+                let q = self.model.ask(&format!("q k {k}"));
+                let mh = field(&q, "entry").parse::<usize>().ok();
+                if rh != mh {
+                    self.disagree(format!("worker registered for pair {k}"), format!("{:?}", rh), format!("{:?}", mh));
+                    return;
+                }
+            }
+        }
+        let dropped = self.gate.dropped.load(Ordering::SeqCst);
+        if dropped == alive {
+            self.disagree("manager value dropped".into(), format!("{dropped}"), format!("{}", !alive));
+            return;
+        }
+        let starts = self.gate.starts();
+        let mut ms = vec![0usize; NKEYS];
+        for i in 0..self.workers.len() {
+            let q = self.wq(i);
+            ms[self.workers[i].key] += field(&q, "fetches").parse::<usize>().unwrap_or(0);
+        }
+        if starts != ms {
+            self.disagree("fetcher invocations per pair".into(), format!("{:?}", starts), format!("{:?}", ms));
+        }
+    }
+
+    /// spec oracle (independent of the model): spawns of a pair ≤ 1 + removals of that pair
+    fn check_spec(&mut self) {
+        for k in 0..NKEYS {
+            if self.spawns[k] > 1 + self.removals[k] && !self.spec.iter().any(|(kk, _)| kk == "C20:two-workers") {
+                self.spec.push(("C20:two-workers".into(), format!("{} worker tasks were spawned for pair {k} with only {} removal(s) of that pair (stop_managing_paths, worker exit, drop) in between", self.spawns[k], self.removals[k])));
+            }
+        }
+    }
+
+    fn spawn_caller(&mut self, kind: Kind, key: usize) -> bool {
+        let j = self.callers.len();
+        let gate = self.gate.clone();
+        let probe = Arc::new(ProbeState::default());
+        let (src, dst) = key_pair(key);
+        let join = match kind {
+            Kind::Handle | Kind::HandleOld => {
+                let mut it = self.workers.iter().enumerate().filter(|(_, w)| w.key == key);
+                let pick = if kind == Kind::HandleOld { it.next() } else { it.last() };
+                let Some((i, w)) = pick else { return false };
+                let h = w.h.clone();
+                self.mact(&format!("m spawnHandle {i}"));
+                let fut = async move {
+                    match h.path().await {
+                        Ok(p) => classify_path(&gate, key, &p),
+                        Err(Some(e)) => classify_err(&gate, &e),
+                        Err(None) => "err:noPaths".into(),
+                    }
+                };
+                tokio::spawn(CALLER_ID.scope(j, Probe { inner: Box::pin(fut), st: probe.clone() }))
+            }
+            _ => {
+                let Some(mgr) = self.mgr.as_ref().cloned() else { return false };
+                self.mact(&if kind == Kind::Cached { format!("m spawnCached {key}") } else { format!("m spawnPath {key}") });
+                let fut = async move {
+                    let out = match kind {
+                        Kind::Path => match mgr.path(src, dst, SystemTime::now()).await {
+                            Ok(p) => classify_path(&gate, key, &p),
+                            Err(e) => classify_err(&gate, &e),
+                        },
+                        Kind::PathWait => match mgr.path_wait(src, dst, SystemTime::now()).await {
+                            Ok(p) => classify_path(&gate, key, &p),
+                            Err(PathWaitError::NoPathFound) => "err:noPaths".into(),
+                            Err(PathWaitError::FetchFailed(e)) => classify_err(&gate, &e),
+                            Err(o) => format!("err:?{o}"),
+                        },
+                        _ => match mgr.cached_path(src, dst, SystemTime::now()) {
+                            Some(p) => classify_path(&gate, key, &p),
+                            None => "nothing".into(),
+                        },
+                    };
+                    drop(mgr);
+                    out
+                };
+                tokio::spawn(CALLER_ID.scope(j, Probe { inner: Box::pin(fut), st: probe.clone() }))
+            }
+        };
+        self.callers.push(CCaller { kind, key, probe, join, result: None, site: "(spawned)", arrivals: 0, parked: None, mpc: String::new(), mdone: false });
+        true
+    }
+
+    /// perform one step token; false = the token does not apply in the current state (skipped)
+    async fn step(&mut self, tok: &str) -> bool {
+        let p: Vec<&str> = tok.split('.').collect();
+        let done = match p.as_slice() {
+            ["S", k, key] => {
+                let kind = match *k {
+                    "p" => Kind::Path,
+                    "w" => Kind::PathWait,
+                    "c" => Kind::Cached,
+                    "h" => Kind::Handle,
+                    _ => Kind::HandleOld,
+                };
+                let key: usize = key.parse().unwrap_or(0) % NKEYS;
+                self.spawn_caller(kind, key)
+            }
+            ["T", key] => {
+                let key: usize = key.parse().unwrap_or(0) % NKEYS;
+                match self.mgr.as_ref() {
+                    Some(m) => {
+                        let (a, b) = key_pair(key);
+                        m.stop_managing_paths(a, b);
+                        self.removals[key] += 1;
+                        self.mact(&format!("m stop {key}"));
+                        true
+                    }
+                    None => false,
+                }
+            }
+            ["D"] => {
+                if self.mgr.take().is_some() {
+                    for r in self.removals.iter_mut() {
+                        *r += 1;
+                    }
+                    self.mact("m drop");
+                    true
+                } else {
+                    false
+                }
+            }
+            ["Z"] => {
+                // let timers fire: wait until some task arrives somewhere
+                let t0 = Instant::now();
+                while t0.elapsed() < Duration::from_millis(400) && self.ctl.q.lock().unwrap().is_empty() {
+                    tokio::time::sleep(Duration::from_millis(2)).await;
+                }
+                true
+            }
+            [t] if t.starts_with('c') => match t[1..].parse::<usize>().ok().filter(|j| *j < self.callers.len()) {
+                Some(j) => match self.callers[j].parked.take() {
+                    Some(tx) => {
+                        let _ = tx.send(());
+                        true
+                    }
+                    None => false,
+                },
+                None => false,
+            },
+            [t] if t.starts_with('w') => match t[1..].parse::<usize>().ok().filter(|i| *i < self.workers.len()) {
+                Some(i) => match self.workers[i].parked.take() {
+                    Some(Park::Go(tx)) => {
+                        let _ = tx.send(());
+                        true
+                    }
+                    other => {
+                        self.workers[i].parked = other;
+                        false
+                    }
+                },
+                None => false,
+            },
+            [t, r] if t.starts_with('f') => match (t[1..].parse::<usize>().ok().filter(|i| *i < self.workers.len()), parse_resp(r)) {
+                (Some(i), Some(resp)) => match self.workers[i].parked.take() {
+                    Some(Park::Fetch(tx)) => {
+                        let id = self.next_id;
+                        self.next_id += 1;
+                        self.workers[i].resp = Some((resp, id));
+                        let _ = tx.send((resp, id));
+                        true
+                    }
+                    other => {
+                        self.workers[i].parked = other;
+                        false
+                    }
+                },
+                _ => false,
+            },
+            _ => false,
+        };
+        if !done {
+            return false;
+        }
+        self.steps.push(tok.to_string());
+        self.settle().await;
+        // a caller whose Notified is complete according to the model must wake up by itself
+        let mut od = self.overdue();
+        if !od.is_empty() {
+            let t0 = Instant::now();
+            while !od.is_empty() && t0.elapsed() < Duration::from_millis(800) && self.fail.is_none() {
+                tokio::time::sleep(Duration::from_millis(5)).await;
+                self.settle().await;
+                od = self.overdue();
+            }
+            if let Some(j) = od.first() {
+                let c = &self.callers[*j];
+                self.spec.push((
+                    "C20:waiter-not-released".into(),
+                    format!("caller {j} ({:?}, pair {}) registered for the completion notification and is still blocked after the worker of its path set has called notify_waiters()", c.kind, c.key),
+                ));
+                self.disagree(format!("wake-up of caller {j}"), "still blocked in its Notified".into(), "its Notified is complete (notify_waiters counter has moved)".into());
+            }
+        }
+        self.check_state();
+        self.check_spec();
+        true
+    }
+
+    /// the options of the scheduler in the current state: (weight, token)
+    fn options(&self, rng: &mut Rng, wc: u64, ww: u64, max_callers: usize) -> Vec<(u64, String)> {
+        let mut o = vec![];
+        for (j, c) in self.callers.iter().enumerate() {
+            if c.parked.is_some() {
+                o.push((wc, format!("c{j}")));
+            }
+        }
+        let mut in_select = false;
+        for (i, w) in self.workers.iter().enumerate() {
+            match &w.parked {
+                Some(Park::Go(_)) => o.push((ww, format!("w{i}"))),
+                Some(Park::Fetch(_)) => o.push((ww, format!("f{i}.{}", pick_resp(rng).s()))),
+                _ => {
+                    if w.site == "w:loop" && !w.done {
+                        in_select = true;
+                    }
+                }
+            }
+        }
+        if self.mgr.is_some() {
+            if self.callers.len() < max_callers {
+                let key = rng.below(2) as usize;
+                let k = match pick_kind2(rng) {
+                    Kind::Path => "p",
+                    Kind::PathWait => "w",
+                    Kind::Cached => "c",
+                    Kind::Handle => "h",
+                    Kind::HandleOld => "o",
+                };
+                o.push((3, format!("S.{k}.{key}")));
+            }
+            o.push((1, format!("T.{}", rng.below(2))));
+            if rng.chance(1, 4) {
+                o.push((1, "D".into()));
+            }
+        } else if self.callers.len() < max_callers && !self.workers.is_empty() {
+            o.push((1, format!("S.{}.{}", if rng.chance(1, 2) { "h" } else { "o" }, rng.below(2))));
+        }
+        if self.timers && in_select {
+            o.push((1, "Z".into()));
+        }
+        o
+    }
+}
+
+async fn run_ctl_async(s: &Sched, lean: &mut Lean) -> Outcome {
+    let mut out = Outcome::default();
+    let spec = s.ctl.clone().unwrap_or_default();
+    let ctl = Arc::new(Ctl::default());
+    install_ctl(ctl.clone());
+    let gate = GateShared::new(Some(ctl.clone()));
+    let mut cfg = MultiPathManagerConfig::default();
+    if s.idle_ms > 0 {
+        cfg = cfg.with_max_idle_period(Duration::from_millis(s.idle_ms));
+    }
+    if s.refetch_ms > 0 {
+        cfg = cfg.with_min_refetch_delay(Duration::from_millis(s.refetch_ms));
+    }
+    let mgr = match MultiPathManager::new(cfg, GFetcher(gate.clone()), PathStrategy::default()) {
+        Ok(m) => m,
+        Err(e) => {
+            out.spec.push(("C20:panic".into(), format!("manager construction failed: {e}")));
+            return out;
+        }
+    };
+    let base_tasks = tokio::runtime::Handle::current().metrics().num_alive_tasks();
+    let mut run = CRun {
+        gate: gate.clone(),
+        ctl,
+        mgr: Some(mgr),
+        callers: vec![],
+        workers: vec![],
+        model: Model::new(lean),
+        fail: None,
+        spec: vec![],
+        steps: vec![],
+        next_id: 1,
+        spawns: vec![0; NKEYS],
+        removals: vec![0; NKEYS],
+        timers: s.idle_ms > 0 || s.refetch_ms > 0,
+        sites: HashMap::new(),
+        compared: 0,
+    };
+    // ---- the schedule proper ----
+    match spec.genr {
+        Some((seed, n)) if spec.steps.is_empty() => {
+            let mut rng = Rng::new(seed);
+            let wc = *rng.pick(&[1u64, 2, 6]);
+            let ww = *rng.pick(&[1u64, 2, 6]);
+            let max_callers = *rng.pick(&[3usize, 6, 12]);
+            // concurrent first requests
+            let first = rng.range(1, 4);
+            let key0 = rng.below(2) as usize;
+            for _ in 0..first {
+                let k = match pick_kind(&mut rng) {
+                    Kind::Cached => "c",
+                    Kind::PathWait => "w",
+                    _ => "p",
+                };
+                let key = if rng.chance(3, 4) { key0 } else { 1 - key0 };
+                run.step(&format!("S.{k}.{key}")).await;
+            }
+            for _ in 0..n {
+                if run.fail.is_some() {
+                    break;
+                }
+                let o = run.options(&mut rng, wc, ww, max_callers);
+                if o.is_empty() {
+                    break;
+                }
+                let total: u64 = o.iter().map(|x| x.0).sum();
+                let mut r = rng.below(total);
+                let mut tok = o[0].1.clone();
+                for (w, t) in &o {
+                    if r < *w {
+                        tok = t.clone();
+                        break;
+                    }
+                    r -= *w;
+                }
+                run.step(&tok).await;
+            }
+        }
+        _ => {
+            for tok in &spec.steps {
+                if run.fail.is_some() {
+                    break;
+                }
+                run.step(tok).await;
+            }
+        }
+    }
+    let recorded = run.steps.clone();
+    // ---- drain: finish every lookup, let every caller return, drop the manager, let every worker end ----
+    let t0 = Instant::now();
+    let limit = Duration::from_millis(2500);
+    // (a) while the manager is there: until every caller has returned
+    while run.fail.is_none() && t0.elapsed() < limit && run.callers.iter().any(|c| c.result.is_none()) {
+        let tok = run
+            .callers
+            .iter()
+            .position(|c| c.parked.is_some())
+            .map(|j| format!("c{j}"))
+            .or_else(|| {
+                run.workers.iter().enumerate().find_map(|(i, w)| match &w.parked {
+                    Some(Park::Go(_)) => Some(format!("w{i}")),
+                    Some(Park::Fetch(_)) => Some(format!("f{i}.ok")),
+                    _ => None,
+                })
+            });
+        match tok {
+            Some(t) => {
+                run.step(&t).await;
+            }
+            None => {
+                run.step("Z").await;
+            }
+        }
+    }
+    let stuck: Vec<usize> = (0..run.callers.len()).filter(|j| run.callers[*j].result.is_none()).collect();
+    if run.fail.is_none() {
+        if let Some(j) = stuck.first() {
+            let c = &run.callers[*j];
+            let pend = run.workers.iter().filter(|w| w.key == c.key && matches!(w.parked, Some(Park::Fetch(_)))).count();
+            run.spec.push((
+                "C20:waiter-not-released".into(),
+                format!("caller {j} ({:?}, pair {}) has not returned (last yield point {}) although every lookup was completed ({pend} pending) and every task was scheduled", c.kind, c.key, c.site),
+            ));
+        }
+    }
+    // (b) drop, then until every worker task has ended
+    if run.fail.is_none() {
+        run.step("D").await;
+    }
+    let t1 = Instant::now();
+    while run.fail.is_none() && t1.elapsed() < limit && run.workers.iter().any(|w| !w.done) {
+        let tok = run
+            .callers
+            .iter()
+            .position(|c| c.parked.is_some())
+            .map(|j| format!("c{j}"))
+            .or_else(|| {
+                run.workers.iter().enumerate().find_map(|(i, w)| match &w.parked {
+                    Some(Park::Go(_)) => Some(format!("w{i}")),
+                    Some(Park::Fetch(_)) => Some(format!("f{i}.ok")),
+                    _ => None,
+                })
+            });
+        match tok {
+            Some(t) => {
+                run.step(&t).await;
+            }
+            None => {
+                if stuck.is_empty() {
+                    run.step("Z").await;
+                } else {
+                    break;
+                }
+            }
+        }
+    }
+    if run.fail.is_none() && stuck.is_empty() {
+        let alive = tokio::runtime::Handle::current().metrics().num_alive_tasks();
+        if !run.gate.dropped.load(Ordering::SeqCst) {
+            run.spec.push(("C20:worker-not-stopped".into(), "manager value (fetcher) not dropped after the user dropped the manager and all callers returned".into()));
+        } else if run.workers.iter().any(|w| !w.done) || alive > base_tasks {
+            let n = run.workers.iter().filter(|w| !w.done).count();
+            run.spec.push(("C20:worker-not-stopped".into(), format!("{n} worker task(s) have not ended ({} tokio tasks alive) after the manager was dropped, all lookups finished and every task was scheduled", alive.saturating_sub(base_tasks))));
+        } else {
+            // every handle reports an error instead of a path: the state, and an actual call on the handle
+            for i in 0..run.workers.len() {
+                let st = handle_state(&run.gate, run.workers[i].key, &run.workers[i].h);
+                let ok = st.starts_with("init=1 ongoing=0 err=exited:") && st.ends_with("active=-") && !st.contains('?');
+                if !ok {
+                    run.spec.push(("C20:path-after-drop".into(), format!("handle of worker {i} (pair {}) after the manager was dropped and every task ended: {st}", run.workers[i].key)));
+                }
+                out.handles_after_drop += 1;
+            }
+            for key in 0..NKEYS {
+                if run.workers.iter().any(|w| w.key == key) && run.fail.is_none() {
+                    let j = run.callers.len();
+                    run.step(&format!("S.o.{key}")).await;
+                    let t2 = Instant::now();
+                    while run.fail.is_none() && t2.elapsed() < limit && run.callers[j].result.is_none() {
+                        if !run.step(&format!("c{j}")).await {
+                            run.step("Z").await;
+                        }
+                    }
+                    out.handle_callers += 1;
+                    match run.callers[j].result.as_deref() {
+                        Some(r) if r.starts_with("err:exited:") => {}
+                        other => run.spec.push(("C20:path-after-drop".into(), format!("a call on the handle of the first worker of pair {key} after the drop returned {:?}", other))),
+                    }
+                }
+            }
+        }
+    }
+    set_yield_controller(None);
+    // ---- outcome ----
+    out.ctl_steps = recorded;
+    out.disagree = run.fail.take();
+    out.spec = std::mem::take(&mut run.spec);
+    out.waiters = run.callers.len();
+    for c in &run.callers {
+        if let Some(r) = &c.result {
+            out.finished += 1;
+            let class = if r.starts_with("path:") { "path".to_string() } else { r.clone() };
+            *out.results.entry(class).or_insert(0) += 1;
+            if r.starts_with("panic") {
+                out.spec.push(("C20:panic".into(), format!("caller task panicked: {r}")));
+            } else if r.contains('?') {
+                out.spec.push(("C20:bad-result".into(), format!("caller on pair {} returned {r}", c.key)));
+            }
+        }
+    }
+    out.fetches = run.gate.starts().iter().sum();
+    out.workers = run.workers.len();
+    out.model_actions = run.model.actions;
+    out.counts = run.model.counts.clone();
+    for (k, n) in &run.sites {
+        out.counts.insert(format!("region {k}"), *n);
+    }
+    out.syncs = run.compared as usize;
+    out.trace_tail = run.model.log.iter().rev().take(60).rev().cloned().collect();
+    for c in &run.callers {
+        c.join.abort();
+    }
+    out
+}
+
+// ---------------------------------------------------------------------------------------------------------
 // generators
 // ---------------------------------------------------------------------------------------------------------
 
@@ -1620,7 +2713,7 @@ fn gen_refetch(rng: &mut Rng) -> Sched {
             break;
         }
     }
-    Sched { threads, idle_ms: 0, cap: None, refetch_ms: 40, ops }
+    Sched { threads, idle_ms: 0, cap: None, refetch_ms: 40, ops, perturb: threads > 0 && rng.chance(1, 2), ctl: None }
 }
 
 fn gen_sched(rng: &mut Rng) -> Sched {
@@ -1712,7 +2805,46 @@ fn gen_sched(rng: &mut Rng) -> Sched {
         ops.push(Op::ReleaseAll { resp: pick_resp(rng) });
         ops.push(Op::IdleWait);
     }
-    Sched { threads, idle_ms, cap: None, refetch_ms, ops }
+    Sched { threads, idle_ms, cap: None, refetch_ms, ops, perturb: mt && rng.chance(1, 2), ctl: None }
+}
+
+/// may a non-reproduced witness failure of a free-running schedule be a harness-timing artefact?
+/// Yes if the harness had to guess timers, or if the implementation was merely *behind* the model when the
+/// deadline of the synchronisation point passed (the observables concerned only ever move one way).
+fn forgivable(s: &Sched, what: &str, im: &str, mo: &str) -> bool {
+    if s.idle_ms > 0 || s.refetch_ms > 0 {
+        return true;
+    }
+    let nums = |t: &str| -> Vec<i64> {
+        t.split(|c: char| !c.is_ascii_digit()).filter(|x| !x.is_empty()).filter_map(|x| x.parse().ok()).collect()
+    };
+    if what.ends_with("finished?") {
+        // the caller has not returned yet in the implementation
+        return im.starts_with("Some(false)") && mo.starts_with("Some(true)");
+    }
+    if what == "fetcher invocations per pair" {
+        // fewer lookups started so far, never more
+        let (a, b) = (nums(im), nums(mo));
+        return a.len() == b.len() && a.iter().zip(b.iter()).all(|(x, y)| x <= y);
+    }
+    if what == "manager value dropped" {
+        return im == "false" && mo == "true";
+    }
+    if what.starts_with("live tasks") {
+        return nums(im).first() > nums(mo).first();
+    }
+    false
+}
+
+/// controlled schedule: the steps are chosen while it runs (seeded), see `run_ctl_async`
+fn gen_ctl(rng: &mut Rng) -> Sched {
+    let (idle_ms, refetch_ms) = match rng.below(8) {
+        0 => (120, 0),
+        1 => (0, 40),
+        _ => (0, 0),
+    };
+    let n = rng.range(15, 70) as usize;
+    Sched { threads: 0, idle_ms, cap: None, refetch_ms, ops: vec![], perturb: false, ctl: Some(CtlSpec { steps: vec![], genr: Some((rng.next(), n)) }) }
 }
 
 /// best-effort shrinking: drop operations while the same kind of failure persists
@@ -1720,6 +2852,34 @@ fn shrink(s: &Sched, lean: &mut Lean, pred: &dyn Fn(&Outcome) -> bool) -> Sched 
     let mut cur = s.clone();
     let mut budget = 24;
     let mut i = 0;
+    if cur.ctl.is_some() {
+        // controlled schedule: drop step tokens (a token that no longer applies is skipped by the runner); first
+        // try to cut the tail off in halves
+        budget = 40;
+        let mut n = cur.ctl.as_ref().unwrap().steps.len();
+        while n > 1 && budget > 0 {
+            let mut cand = cur.clone();
+            cand.ctl.as_mut().unwrap().steps.truncate(n / 2);
+            budget -= 1;
+            if pred(&run_sched(&cand, lean)) {
+                cur = cand;
+                n /= 2;
+            } else {
+                break;
+            }
+        }
+        while i < cur.ctl.as_ref().unwrap().steps.len() && budget > 0 {
+            let mut cand = cur.clone();
+            cand.ctl.as_mut().unwrap().steps.remove(i);
+            budget -= 1;
+            if pred(&run_sched(&cand, lean)) {
+                cur = cand;
+            } else {
+                i += 1;
+            }
+        }
+        return cur;
+    }
     while i < cur.ops.len() && budget > 0 {
         let mut cand = cur.clone();
         cand.ops.remove(i);
@@ -1766,33 +2926,66 @@ fn main() {
             }
         }).collect();
     } else {
-        let n = args.scale(260, 9000);
-        for _ in 0..n {
+        // two streams, interleaved: controlled schedules (the harness is the scheduler, lock-region granularity,
+        // current-thread) and free-running ones (current-thread / multi-thread, races by true parallelism)
+        let n = args.scale(420, 16000);
+        for k in 0..n {
             let mut r = rng.fork();
-            schedules.push(("random".into(), gen_sched(&mut r)));
+            if k % 3 != 2 {
+                schedules.push(("controlled".into(), gen_ctl(&mut r)));
+            } else {
+                schedules.push(("random".into(), gen_sched(&mut r)));
+            }
         }
     }
     let t0 = Instant::now();
     let budget = Duration::from_secs(if args.thorough() { 1300 } else { 150 });
     let mut skipped = 0u64;
+    let mut transients = 0u64;
     for (origin, s) in &schedules {
         if t0.elapsed() > budget {
             skipped += 1;
             continue;
         }
         let o = run_sched(s, &mut lean);
+        // a generated controlled schedule is identified (and replayed) by the steps it actually performed
+        let explicit: Sched;
+        let s = if s.ctl.as_ref().map(|c| c.steps.is_empty()).unwrap_or(false) {
+            explicit = Sched { ctl: Some(CtlSpec { steps: o.ctl_steps.clone(), genr: None }), ..s.clone() };
+            &explicit
+        } else {
+            s
+        };
         let line = sched_line(s);
         let nontrivial = o.finished > 0 && o.workers > 0;
         rep.case(&line, nontrivial);
         rep.traces += 1;
         rep.hit(&format!("schedule origin {origin}"));
-        rep.hit(&format!("runtime {}", if s.threads == 0 { "current-thread".to_string() } else { format!("multi-thread x{}", s.threads) }));
+        rep.hit(&format!(
+            "runtime {}",
+            if s.ctl.is_some() {
+                "current-thread, controlled (one task released at a time at the yield points)".to_string()
+            } else if s.threads == 0 {
+                "current-thread".to_string()
+            } else {
+                format!("multi-thread x{}{}", s.threads, if s.perturb { " + yield-point perturbation" } else { "" })
+            }
+        ));
+        if s.ctl.is_some() {
+            rep.hit_n("controlled steps (releases / operations chosen by the harness)", o.ctl_steps.len() as u64);
+            if s.idle_ms > 0 {
+                rep.hit("controlled schedule with idle period 120 ms");
+            }
+            if s.refetch_ms > 0 {
+                rep.hit("controlled schedule with min refetch delay 40 ms");
+            }
+        }
         rep.hit_n("callers spawned", o.waiters as u64);
         rep.hit_n("callers finished", o.finished as u64);
         rep.hit_n("fetcher invocations", o.fetches as u64);
         rep.hit_n("workers (model)", o.workers as u64);
         rep.hit_n("model actions replayed", o.model_actions);
-        rep.hit_n("synchronisation points compared", o.syncs as u64);
+        rep.hit_n(if s.ctl.is_some() { "controlled steps after which model state = real state was checked" } else { "synchronisation points compared" }, o.syncs as u64);
         rep.hit_n("witness rebuilt after late quiescence", o.retries as u64);
         rep.hit_n("deferred cancellations (scc reclaim) inferred", o.reclaims as u64);
         rep.hit_n("callers on a bare handle", o.handle_callers as u64);
@@ -1821,26 +3014,45 @@ fn main() {
             rep.sample(json!({"schedule": line, "callers": o.waiters, "results": o.results, "fetcher_invocations": o.fetches,
                                "model_actions": o.model_actions, "witness_tail": o.trace_tail.iter().rev().take(12).rev().collect::<Vec<_>>() }));
         }
-        // a witness failure that does not reproduce on the same schedule is a timing artefact of the harness (late
-        // quiescence under load, a timer firing at an unexpected moment): recorded, but not a disagreement
+        // Free-running schedules only: the witness between two synchronisation points is *searched* by the
+        // harness (which timers fired, which removed entries were reclaimed), and "quiescent" is a judgement.  A
+        // failure of that search is forgiven as a harness-timing artefact ONLY if all of the following hold:
+        //   * the real system was merely *behind* the model (late quiescence), or the schedule has timers the
+        //     harness has to guess (idle / refetch) – see `forgivable`;
+        //   * it does not reproduce in 2 re-runs of the same schedule;
+        //   * none of the three runs produced a spec failure.
+        // Anything else is reported even if it shows up only once (a genuine race need not reproduce).  Spec
+        // failures of every run are kept.  Controlled schedules are never forgiven anything.
         let mut o = o;
         if let Some((what, im, mo)) = o.disagree.clone() {
+            let first_spec = o.spec.clone();
             let mut reproduced = None;
+            let mut rerun_spec: Vec<(String, String)> = vec![];
             for _ in 0..2 {
                 let o2 = run_sched(s, &mut lean);
+                rerun_spec.extend(o2.spec.iter().cloned());
                 if o2.disagree.is_some() {
                     reproduced = Some(o2);
                     break;
                 }
             }
             match reproduced {
-                Some(o2) => o = o2,
+                Some(mut o2) => {
+                    o2.spec.extend(first_spec);
+                    o = o2;
+                }
                 None => {
-                    rep.hit("transient witness failure (not reproduced in 2 re-runs of the same schedule)");
-                    if rep.notes.len() < 12 {
-                        rep.notes.push(format!("transient: {line} | {what}: impl {im} model {mo} | {:?}", o.cand_mm.iter().take(3).collect::<Vec<_>>()));
+                    o.spec.extend(rerun_spec);
+                    if s.ctl.is_none() && forgivable(s, &what, &im, &mo) && o.spec.is_empty() {
+                        rep.hit("transient witness failure (free-running schedule, implementation merely behind / timer guess; not reproduced in 2 re-runs, no spec failure)");
+                        transients += 1;
+                        if rep.notes.len() < 12 {
+                            rep.notes.push(format!("transient: {line} | {what}: impl {im} model {mo} | {:?}", o.cand_mm.iter().take(3).collect::<Vec<_>>()));
+                        }
+                        o.disagree = None;
+                    } else {
+                        rep.hit("witness failure seen once (not reproduced in 2 re-runs) – reported");
                     }
-                    o.disagree = None;
                 }
             }
         }
@@ -1866,6 +3078,14 @@ fn main() {
     }
     if skipped > 0 {
         rep.notes.push(format!("time budget reached: {skipped} generated schedules not run"));
+    }
+    // harness timing cannot explain more than a handful of failed witness searches
+    if transients > 3 + rep.traces / 100 {
+        rep.spec_fail(
+            "C20:harness:too-many-transients",
+            &format!("{transients} witness failures of free-running schedules were classified as harness timing – too many to be timing"),
+            json!({"line": "-"}),
+        );
     }
     if rep.samples.is_empty() {
         if let Some((_, s)) = schedules.first() {
